@@ -133,15 +133,16 @@ TPClaim(S, pid) ==
         o == t[1]
         m == S.procs[pid].m
         wk == Loc(FALSE, 0, m, "new", EmptyFn)
-    IN IF m \notin S.cl.avail /\ m \notin S.cl.ingest /\ m \notin IdleOf(S, o)
-       THEN Die(Raise(S, "RuntimeError"), pid)
+        valid == IF IsIngestTask(t) THEN m \in S.cl.ingest
+                 ELSE m \in S.cl.avail \/ m \in IdleOf(S, o)
+    IN IF ~valid THEN Die(Raise(S, "RuntimeError"), pid)
        ELSE IF IsIngestTask(t)
        THEN LET S1 == [S EXCEPT !.cl.running = @ \cup {t},
                                 !.cl.fin = @ @@ (t :> FALSE),
                                 !.cl.uAvail = @ - 1, !.cl.uRun = @ + 1, !.cl.uIng = @ + 1,
                                 !.tasks[t].status = "SCHEDULED",
                                 !.procs[pid].started = TRUE]
-            IN Sleep(Spawn(S1, WkPid(t), wk), pid, STEP)
+            IN Sleep(Spawn([S1 EXCEPT !.tasks[t].alloc = IF @ = NoneT THEN S.now ELSE @], WkPid(t), wk), pid, STEP)
        ELSE IF m \notin S.cl.avail /\ o \in DOMAIN S.cl.idle /\ m \notin S.cl.idle[o]
        THEN Die(Raise(S, "ValueError"), pid)      \* list.remove(x): x not in list
        ELSE LET S1 == IF m \in S.cl.avail
@@ -152,6 +153,7 @@ TPClaim(S, pid) ==
                 S2 == [S1 EXCEPT !.cl.running = @ \cup {t},
                                  !.cl.uAvail = @ - 1, !.cl.uRun = @ + 1,
                                  !.tasks[t].status = "SCHEDULED",
+                                 !.tasks[t].alloc = IF @ = NoneT THEN S.now ELSE @,
                                  !.procs[pid].started = TRUE]
             IN Sleep(Spawn(S2, WkPid(t), wk), pid, STEP)
 
